@@ -131,6 +131,8 @@ func HarnessCallback() {
 	}
 	if vrtProp("C15") {
 		vrtAssert("C15.no-write-to-provider-lifetime-state", vrtSharedWrites() == 0)
+		// under every schedule and history the reply consists of documents this request produced
+		vrtAssert("C15.reply-made-of-this-requests-own-documents", rp.Kind != "other" && rp.Docs+rp.Forms <= 1)
 	}
 
 	acs := ""
